@@ -22,11 +22,12 @@ import (
 // are taken as atomic.
 //
 // A state is classified by what the operation was doing:
-//   append   the changed range starts at the old end of file — the state is a
-//            file "whose last record was only partly written" (C15)
-//   mark     an 8-byte in-place write (dead marker) — atomic, old or new
-//   rewrite  anything else (compaction moves records forward in place, reset
-//            truncates): not a truncation state, judged for C12 only
+//
+//	append   the changed range starts at the old end of file — the state is a
+//	         file "whose last record was only partly written" (C15)
+//	mark     an 8-byte in-place write (dead marker) — atomic, old or new
+//	rewrite  anything else (compaction moves records forward in place, reset
+//	         truncates): not a truncation state, judged for C12 only
 type crashState struct {
 	content []byte
 	rewrite bool
